@@ -344,6 +344,212 @@ theorem solo_behaviour {progs : Progs} (wt : WellTyped progs = true) :
     · exact k
   · intro m; cases m <;> assumption
 
+/-! ### the failed window: what others are told between `fail` and `release`, under any interleaving -/
+
+/-- what an observer must be told while the lock is marked failed -/
+def expected : Op → Option Res
+  | .get => some (.bool false)
+  | .isLocked => some (.bool true)
+  | .isFailed => some (.bool true)
+  | _ => none
+
+theorem expected_ne_raised {op : Op} {r : Res} (h : expected op = some r) : r ≠ .raised := by
+  cases op <;> simp [expected] at h <;> subst h <;> simp
+
+/-- every client other than `h` that is in the middle of an observing operation is on course to the right answer:
+    run alone from here on a failed lock, its remaining program gives it -/
+def OnCourse (s : LSys) (h : Nat) : Prop :=
+  ∀ j op t r, j ≠ h → s.cl j = .run op t → expected op = some r → ∃ k, runSolo k t .failed = (r, .failed)
+
+theorem solo_expected {progs : Progs} (wt : WellTyped progs = true) (op : Op) (r : Res) (h : expected op = some r) :
+    runSolo 8 (progs op) .failed = (r, .failed) := by
+  have hs := solo_behaviour wt
+  cases op <;> simp [expected] at h <;> subst h
+  · exact hs.1
+  · exact hs.2.1
+  · exact hs.2.2.1
+
+/-- one event inside the failed window -/
+theorem window_step {progs : Progs} (wt : WellTyped progs = true) (s s' : LSys) (hinv : LInv2 s) (h : Nat) (hh : s.holds h = true)
+    (hf : s.mem = .failed) (hoc : OnCourse s h) (ev : LEv) (out : Option (Nat × Op × Res))
+    (hne : ∀ op, ev ≠ .start h op) (hne2 : ev ≠ .step h) (hs : lstep progs s ev = some (s', out)) :
+    OnCourse s' h ∧ ∀ j op r r', out = some (j, op, r') → expected op = some r → r' = r := by
+  have hst := failed_stays wt s s' hinv h hh hf ev out hne hne2 hs
+  cases ev with
+  | start i op =>
+    have hih : i ≠ h := fun e => hne op (by rw [e])
+    simp only [lstep] at hs
+    split at hs <;> (try simp at hs)
+    rename_i hidle
+    obtain ⟨hall, hs⟩ := hs
+    have hcl : (startState s i op).cl = s.cl := by simp only [startState]; split <;> rfl
+    cases hp : progs op with
+    | ret r0 =>
+      rw [hp] at hs; simp only [advance, Prod.mk.injEq] at hs
+      obtain ⟨hs1, hs2⟩ := hs
+      constructor
+      · intro j op' t r hj hclj hex
+        rw [← hs1] at hclj
+        simp only [finish, updc, hcl] at hclj
+        split at hclj
+        · simp at hclj
+        · exact hoc j op' t r hj hclj hex
+      · intro j op' r r' ho hex
+        rw [← hs2] at ho
+        simp only [Option.some.injEq, Prod.mk.injEq] at ho
+        obtain ⟨_, rfl, rfl⟩ := ho
+        have := solo_expected wt op r hex
+        rw [hp] at this; simp only [runSolo, Prod.mk.injEq] at this
+        exact this.1
+    | prim p next =>
+      rw [hp] at hs; simp only [advance, Prod.mk.injEq] at hs
+      obtain ⟨hs1, hs2⟩ := hs
+      constructor
+      · intro j op' t r hj hclj hex
+        rw [← hs1] at hclj
+        simp only [updc, hcl] at hclj
+        split at hclj
+        · simp only [CState.run.injEq] at hclj
+          obtain ⟨rfl, rfl⟩ := hclj
+          exact ⟨8, by rw [← hp]; exact solo_expected wt op r hex⟩
+        · exact hoc j op' t r hj hclj hex
+      · intro j op' r r' ho; rw [← hs2] at ho; simp at ho
+  | step i =>
+    have hih : i ≠ h := fun e => hne2 (by rw [e])
+    simp only [lstep] at hs
+    split at hs <;> (try simp at hs)
+    rename_i op p next hcl
+    -- what the solo run from here says, if the operation is an observing one
+    have hsolo : ∀ r, expected op = some r →
+        (lookup (sem p .failed).1 next = none → r = .raised) ∧
+        (∀ t', lookup (sem p .failed).1 next = some t' → ∃ k, runSolo k t' (sem p .failed).2 = (r, .failed)) := by
+      intro r hex
+      obtain ⟨k, hk⟩ := hoc i op _ r hih hcl hex
+      cases k with
+      | zero => simp only [runSolo, Prod.mk.injEq] at hk; exact absurd hk.1.symm (expected_ne_raised hex)
+      | succ k =>
+        simp only [runSolo] at hk
+        constructor
+        · intro hl; rw [hl] at hk; simp only [Prod.mk.injEq] at hk; exact hk.1.symm
+        · intro t' hl; rw [hl] at hk; exact ⟨k, hk⟩
+    rw [hf] at hs
+    have hmem' : s'.mem = (sem p .failed).2 := by
+      split at hs
+      · simp only [Option.some.injEq, Prod.mk.injEq] at hs; rw [← hs.1]; simp [finish]
+      · rename_i t _
+        simp only [Option.some.injEq] at hs
+        cases t with
+        | ret r => simp only [advance, Prod.mk.injEq] at hs; rw [← hs.1]; simp [finish]
+        | prim q n => simp only [advance, Prod.mk.injEq] at hs; rw [← hs.1]
+    have hm' : (sem p .failed).2 = .failed := by rw [← hmem']; exact hst.1
+    split at hs
+    · rename_i hl
+      simp only [Option.some.injEq, Prod.mk.injEq] at hs
+      obtain ⟨hs1, hs2⟩ := hs
+      constructor
+      · intro j op' t r hj hclj hex
+        rw [← hs1] at hclj
+        simp only [finish, updc] at hclj
+        split at hclj
+        · simp at hclj
+        · exact hoc j op' t r hj hclj hex
+      · intro j op' r r' ho hex
+        rw [← hs2] at ho
+        simp only [Option.some.injEq, Prod.mk.injEq] at ho
+        obtain ⟨_, rfl, rfl⟩ := ho
+        exact ((hsolo r hex).1 hl).symm
+    · rename_i t' hl
+      simp only [Option.some.injEq] at hs
+      cases t' with
+      | ret r0 =>
+        simp only [advance, Prod.mk.injEq] at hs
+        obtain ⟨hs1, hs2⟩ := hs
+        constructor
+        · intro j op' t r hj hclj hex
+          rw [← hs1] at hclj
+          simp only [finish, updc] at hclj
+          split at hclj
+          · simp at hclj
+          · exact hoc j op' t r hj hclj hex
+        · intro j op' r r' ho hex
+          rw [← hs2] at ho
+          simp only [Option.some.injEq, Prod.mk.injEq] at ho
+          obtain ⟨_, rfl, rfl⟩ := ho
+          obtain ⟨k, hk⟩ := (hsolo r hex).2 _ hl
+          cases k <;> simp only [runSolo, Prod.mk.injEq] at hk <;> exact hk.1
+      | prim q n =>
+        simp only [advance, Prod.mk.injEq] at hs
+        obtain ⟨hs1, hs2⟩ := hs
+        constructor
+        · intro j op' t r hj hclj hex
+          rw [← hs1] at hclj
+          simp only [updc] at hclj
+          split at hclj
+          · simp only [CState.run.injEq] at hclj
+            obtain ⟨rfl, rfl⟩ := hclj
+            obtain ⟨k, hk⟩ := (hsolo r hex).2 _ hl
+            rw [hm'] at hk
+            exact ⟨k, hk⟩
+          · exact hoc j op' t r hj hclj hex
+        · intro j op' r r' ho; rw [← hs2] at ho; simp at ho
+
+/-- events of the window: anything but the holder's own -/
+def NotBy (h : Nat) (evs : List LEv) : Prop := ∀ e ∈ evs, (∀ op, e ≠ .start h op) ∧ e ≠ .step h
+
+/-- **failed stays failed, for every observer and every interleaving**: from a state in which `h` holds the lock marked
+    failed (and nobody else is half-way through an operation begun earlier), along any history of the other clients'
+    primitives - operations overlapping each other in any way - every completed `is_locked()` and `is_failed()` answers
+    True and every completed `get()` answers False; the shared state stays failed and `h` keeps holding -/
+theorem failed_window {progs : Progs} (wt : WellTyped progs = true) (h : Nat) (evs : List LEv) :
+    ∀ (s s' : LSys) (outs : List (Nat × Op × Res)), LInv2 s → s.holds h = true → s.mem = .failed → OnCourse s h → NotBy h evs →
+      lrun progs s evs = some (s', outs) →
+      s'.mem = .failed ∧ s'.holds h = true ∧ ∀ j op r r', (j, op, r') ∈ outs → expected op = some r → r' = r := by
+  induction evs with
+  | nil =>
+    intro s s' outs _ hh hf _ _ hr
+    simp only [lrun, Option.some.injEq, Prod.mk.injEq] at hr
+    obtain ⟨rfl, rfl⟩ := hr
+    exact ⟨hf, hh, by intro j op r r' hm; simp at hm⟩
+  | cons e es ih =>
+    intro s s' outs hinv hh hf hoc hnb hr
+    simp only [lrun] at hr
+    split at hr <;> (try simp at hr)
+    rename_i s1 out hstep
+    split at hr <;> (try simp at hr)
+    rename_i s2 outs2 hrest
+    obtain ⟨rfl, rfl⟩ := hr
+    have hne := hnb e (by simp)
+    have h1 := failed_stays wt s s1 hinv h hh hf e out hne.1 hne.2 hstep
+    have h2 := window_step wt s s1 hinv h hh hf hoc e out hne.1 hne.2 hstep
+    have h3 := ih s1 s2 outs2 (lstep_inv2 wt s s1 e out hinv hstep).1 h1.2.1 h1.1 h2.1 (fun e' he' => hnb e' (by simp [he'])) hrest
+    refine ⟨h3.1, h3.2.1, ?_⟩
+    intro j op r r' hm hex
+    simp only [List.mem_append, Option.mem_toList] at hm
+    rcases hm with hm | hm
+    · exact h3.2.2 j op r r' hm hex
+    · exact h2.2 j op r r' hm hex
+
+/-- in particular from the moment `fail()` has completed with every other client idle -/
+theorem failed_window_idle {progs : Progs} (wt : WellTyped progs = true) (h : Nat) (evs : List LEv) (s s' : LSys)
+    (outs : List (Nat × Op × Res)) (hinv : LInv2 s) (hh : s.holds h = true) (hf : s.mem = .failed)
+    (hidle : ∀ j, j ≠ h → s.cl j = .idle) (hnb : NotBy h evs) (hr : lrun progs s evs = some (s', outs)) :
+    ∀ j r', ((j, .isFailed, r') ∈ outs → r' = .bool true) ∧ ((j, .isLocked, r') ∈ outs → r' = .bool true) ∧
+            ((j, .get, r') ∈ outs → r' = .bool false) := by
+  have hoc : OnCourse s h := by
+    intro j op t r hj hcl _; rw [hidle j hj] at hcl; simp at hcl
+  have hw := (failed_window wt h evs s s' outs hinv hh hf hoc hnb hr).2.2
+  intro j r'
+  exact ⟨fun hm => hw j .isFailed _ r' hm rfl, fun hm => hw j .isLocked _ r' hm rfl, fun hm => hw j .get _ r' hm rfl⟩
+
+/-- non-vacuity on the extracted file-lock programs: client 0 acquires and marks failed; then clients 1 and 2 run
+    `is_failed()` (two primitives) and `get()` interleaved primitive by primitive inside the window -/
+example : ∃ s outs, lrun fileProgs (initL .free)
+      [.start 0 .get, .step 0, .step 0, .start 0 .fail, .step 0] = some (s, outs) ∧
+      s.mem = .failed ∧ s.holds 0 = true := ⟨_, _, rfl, by decide⟩
+example : ∃ s outs, lrun fileProgs { mem := .failed, cl := fun _ => .idle, holds := fun j => j == 0 }
+      [.start 1 .isFailed, .start 2 .get, .step 1, .step 2, .start 3 .isLocked, .step 1, .step 3] = some (s, outs) ∧
+      outs = [(3, .isLocked, .bool true), (1, .isFailed, .bool true), (2, .get, .bool false)] := ⟨_, _, rfl, by decide⟩
+
 /-- the same for the atomic in-memory backend -/
 theorem solo_behaviour_dict :
     (runSolo 8 (dictProgs .get) .free = (.bool true, .locked)) ∧ (runSolo 8 (dictProgs .get) .locked = (.bool false, .locked)) ∧
